@@ -50,6 +50,12 @@ func (f iterFam) source() string {
 		return fmt.Sprintf("<{S(%d); yield \\ if \\ < %d; recur(\\ + %d)}>", s, l, d)
 	case "implicit2":
 		return fmt.Sprintf("<{S(%d); yield \\1 * 10 if \\1 < %d; recur(\\1 + %d)}>", s, l, d)
+	case "falsyyield":
+		// the first yielded value is falsy (0): it must still win over the later yield
+		return fmt.Sprintf("<{|i| S(%d); yield (i - i) if i < %d; yield 777; recur(i + %d)}>", s, l, d)
+	case "twoparam":
+		// second parameter: nil unless given to new; carried along by recur
+		return fmt.Sprintf("<{|i, j| S(%d); yield [i, j] if i < %d; recur(i + %d, j)}>", s, l, d)
 	}
 	panic("unknown family")
 }
@@ -58,10 +64,22 @@ type iterState struct {
 	fam  int
 	i    int64
 	step int64
+	j    string // second argument (Inspect text; "nil" when not given)
 }
 
 // step models one `next`: value, stop?, and the successor state. fault: the slot raises.
-func (f iterFam) next(st iterState, fault bool) (val int64, stop bool, errored bool, ns iterState) {
+func (f iterFam) next(st iterState, fault bool) (val string, stop bool, errored bool, ns iterState) {
+	v, stop, errored, ns := f.nextInt(st, fault)
+	switch f.kind {
+	case "falsyyield":
+		return "0", stop, errored, ns
+	case "twoparam":
+		return fmt.Sprintf("[%d, %s]", v, st.j), stop, errored, ns
+	}
+	return fmt.Sprint(v), stop, errored, ns
+}
+
+func (f iterFam) nextInt(st iterState, fault bool) (val int64, stop bool, errored bool, ns iterState) {
 	ns = st
 	d := f.step
 	if f.kw {
@@ -76,7 +94,7 @@ func (f iterFam) next(st iterState, fault bool) (val int64, stop bool, errored b
 		return 0, false, true, ns
 	}
 	switch f.kind {
-	case "guard", "kw", "implicit":
+	case "guard", "kw", "implicit", "falsyyield", "twoparam":
 		if st.i < f.lim {
 			return st.i, false, false, adv
 		}
@@ -208,7 +226,7 @@ func (c *c14Check) Run(seed, run uint64, rec []uint32, st Stats, only *Viol) []V
 	}
 	s.Histories++
 	// 1..2 generator literals
-	kinds := []string{"guard", "noguard", "recurfirst", "twoyields", "norecur", "kw", "slotafterrecur", "implicit", "implicit2"}
+	kinds := []string{"guard", "noguard", "recurfirst", "twoyields", "norecur", "kw", "slotafterrecur", "implicit", "implicit2", "falsyyield", "twoparam"}
 	nf := 1 + t.Intn(2)
 	fams := make([]iterFam, nf)
 	env := object.NewEnclosedEnv(c.it.Global)
@@ -288,7 +306,11 @@ func (c *c14Check) Run(seed, run uint64, rec []uint32, st Stats, only *Viol) []V
 			name := fmt.Sprintf("h%d", t.Intn(4))
 			arg := int64(t.Intn(5))
 			line := fmt.Sprintf("%s := g%d.new(%d)", name, fi, arg)
-			stt := iterState{fam: fi, i: arg, step: f.step}
+			stt := iterState{fam: fi, i: arg, step: f.step, j: "nil"}
+			if f.kind == "twoparam" && t.Chance(1, 2) {
+				stt.j = fmt.Sprint(40 + t.Intn(9))
+				line = fmt.Sprintf("%s := g%d.new(%d, %s)", name, fi, arg, stt.j)
+			}
 			if f.kw && t.Chance(1, 2) {
 				stt.step = int64(1 + t.Intn(3))
 				line = fmt.Sprintf("%s := g%d.new(%d, step: %d)", name, fi, arg, stt.step)
@@ -317,7 +339,7 @@ func (c *c14Check) Run(seed, run uint64, rec []uint32, st Stats, only *Viol) []V
 				fail("new-from-handle", f.kind, "error", "an iterator", describe(r))
 				break
 			}
-			handles = append(handles, iterState{fam: h.fam, i: arg, step: f.step})
+			handles = append(handles, iterState{fam: h.fam, i: arg, step: f.step, j: "nil"})
 			bind(name, len(handles)-1)
 		case 2: // next, possibly with the body's slot raising
 			name := pickName()
@@ -350,7 +372,7 @@ func (c *c14Check) Run(seed, run uint64, rec []uint32, st Stats, only *Viol) []V
 					fail("next", f.kind, "stop", "Raise(StopIterErr)", describe(r))
 				}
 			default:
-				if r.Err != nil || r.Panic != "" || r.Obj == nil || r.Obj.Inspect() != fmt.Sprint(val) {
+				if r.Err != nil || r.Panic != "" || r.Obj == nil || r.Obj.Inspect() != val {
 					fail("next", f.kind, "value", val, describe(r))
 				}
 			}
@@ -368,19 +390,28 @@ func (c *c14Check) Run(seed, run uint64, rec []uint32, st Stats, only *Viol) []V
 				continue
 			}
 			var vals []int64
+			var svals []string
 			cur := h
 			for guard := 0; guard < 100; guard++ {
-				v, stop, _, ns := f.next(cur, false)
+				sv, stop, _, _ := f.next(cur, false)
+				v, _, _, ns := f.nextInt(cur, false)
 				if stop {
 					break
 				}
+				if f.kind == "falsyyield" {
+					v = 0
+				}
 				vals = append(vals, v)
+				svals = append(svals, sv)
 				cur = ns
+			}
+			if f.kind == "twoparam" && op != 3 {
+				op = 3 // arithmetic chains need int values: use A for this family
 			}
 			var line, want, opn string
 			switch op {
 			case 3:
-				line, want, opn = name+".A", intsInspect(vals), "A"
+				line, want, opn = name+".A", "["+strings.Join(svals, ", ")+"]", "A"
 			case 4:
 				dbl := make([]int64, len(vals))
 				for i, v := range vals {
